@@ -214,6 +214,13 @@ def d2_quad(ctx):
         rets = [s for s in statements(f) if isinstance(s, ast.Return)]
         plain = [s for s in rets if any(pol and 'len(derivint) == 0' in unparse(t) for t, pol in guards_of(m, s, stop=f))]
         ctx.check(rule, 'integrate.py:quad#plain', len(plain) == 1 and unparse(plain[0].value) == 'integration_result', 'without observables scipy\'s result is returned', 'plain return: %s' % [unparse(s.value) for s in plain])
+    # sibling agreement: the integral of the value and the integrals of the parameter derivatives are the same integral
+    # (same weight function, same singular points, same accuracy): every call of the integrator forwards the same options
+    sq = [c for c in walk(f) if isinstance(c, ast.Call) and call_name(c) == 'squad']
+    opts = {tuple(sorted((k.arg or '**', unparse(k.value)) for k in c.keywords)) for c in sq}
+    ctx.check(rule, 'integrate.py:quad#same-options', len(sq) >= 2 and len(opts) == 1 and any(k[0] == '**' for k in next(iter(opts))),
+              'all %d integrator calls forward the same option dictionary' % len(sq),
+              'the integrator calls differ in their options: %s (a weight / singular-point option that reaches only the value integral gives a gradient of a different integral)' % sorted(opts), m.loc(f))
     pv = find_def(f, 'pval')
     ctx.check(rule, 'integrate.py:quad#pval', len(pv) == 1 and 'p[i].value if isobs[i] else p[i]' in unparse(pv[0].value), 'pval = central values of the parameters', 'pval=%s' % [unparse(s.value) for s in pv])
     bv = find_def(f, 'bval')
@@ -226,17 +233,19 @@ def run(ctx):
     ctx.not_decided += ['correctness of fsolve / scipy quad', 'equality with analytic inverses / antiderivatives']
     ctx.guarded('C09-D1', 'roots.py:find_root', d1_root, ctx)
     ctx.guarded('C09-D2', 'integrate.py:quad', d2_quad, ctx)
-    ctx.rule('C09-D3', 'no hidden state shared between calls (memoisation keyed by code object / name / length)')
+    ctx.rule('C09-D3', 'no hidden state shared between calls (memoisation keyed by code object / name / length); no loop variable read after its loop')
     for mn_ in ('roots', 'integrate'):
         mm_ = ctx.repo.mod(mn_)
         ctx.guarded('C09-D3', mn_ + '@hidden-state', hiddenstate.check, ctx, 'C09-D3', mm_, [q for q, _ in mm_.functions() if '.' not in q], 'the propagated derivative')
-    from .. import unusedparams
+    from .. import unusedparams, leakedloop
     for mn_ in ('roots', 'integrate'):
         ctx.guarded('C09-D3', mn_ + '@parameters', unusedparams.check, ctx, 'C09-D3', ctx.repo.mod(mn_))
+        ctx.guarded('C09-D3', mn_ + '@loop-variables', leakedloop.check, ctx, 'C09-D3', ctx.repo.mod(mn_))
     ctx.floor('C09 obligations', len(ctx.obs), 20)
 
 
 SELFTEST = [
+    ('derivative-integrals-lose-options', 'pyerrors/integrate.py', "derivint.append(squad(ifunc, bounds[0], bounds[1], **ikwargs)[0])", "derivint.append(squad(ifunc, bounds[0], bounds[1])[0])", 'C09-D2'),
     ('root-sign', 'pyerrors/roots.py', "    deriv = - da / dx", "    deriv = da / dx", 'C09-D1'),
     ('root-inverted', 'pyerrors/roots.py', "    deriv = - da / dx", "    deriv = - dx / da", 'C09-D1'),
     ('root-swap-call', 'pyerrors/roots.py', "da = jacobian(lambda u, v: func(v, u))(d_val, root[0])", "da = jacobian(lambda u, v: func(v, u))(root[0], d_val)", 'C09-D1'),
